@@ -460,7 +460,7 @@ impl Property for C12 {
         ]
     }
     fn random_cases(&self, tier: Tier) -> u64 {
-        tier.pick(30_000, 1_000_000)
+        tier.pick(100_000, 2_000_000)
     }
     fn exhaustive_note(&self, tier: Tier) -> Option<String> {
         let (n, d) = tier.pick((4, 2), (5, 3));
